@@ -66,9 +66,10 @@ def cntUntied (n m : Nat) : Array Nat := (gaussRow n m).getD n #[]
 def untiedCounts (n1 n2 : Nat) : Array Nat :=
   if n1 > n2 then cntUntied n2 n1 else cntUntied n1 n2
 
-/-- `d.p(U)[u]` -/
-def pUntied (n1 n2 : Nat) (u : Nat) : Rat :=
-  (((untiedCounts n1 n2).getD u 0 : Nat) : Rat) / ((choose (n1 + n2) n1 : Nat) : Rat)
+/-- the table `d.p(·)` (indices 0..n1·n2; the Go slice is a prefix of it) from the counts -/
+def pUntied (n1 n2 : Nat) : Array Rat :=
+  let c : Rat := ((choose (n1 + n2) n1 : Nat) : Rat)
+  (untiedCounts n1 n2).map fun (k : Nat) => ((k : Nat) : Rat) / c
 
 /-! ### tied distribution: `makeUmemo` -/
 
@@ -179,13 +180,14 @@ def makeUmemo (t : List Nat) (n1 twoU : Int) : Nat :=
 
 def hasTies (T : List Nat) : Bool := T.any (· > 1)
 
-/-- `d.p(U)[u]` through the recurrence itself: Go swaps so that N ≤ M and tabulates p_{N,M} -/
-def pUntiedRec (n1 n2 : Nat) (u : Nat) : Rat :=
-  if n1 > n2 then pRec n2 n1 (u : Nat) else pRec n1 n2 (u : Nat)
+/-- the table `d.p(·)` through the recurrence itself: Go swaps so that N ≤ M and tabulates p_{N,M} -/
+def pUntiedRec (n1 n2 : Nat) : Array Rat :=
+  Array.ofFn (n := n1 * n2 + 1) fun u =>
+    if n1 > n2 then pRec n2 n1 (u.val : Nat) else pRec n1 n2 (u.val : Nat)
 
 /-- `UDist{n1,n2,T}.CDF(U)` with twoU = 2·U. `tied` chooses the evaluator of the tied table,
     `untied` the evaluator of `d.p(U)[u]`. -/
-def cdfWith (tied : List Nat → Int → Int → Nat) (untied : Nat → Nat → Nat → Rat)
+def cdfWith (tied : List Nat → Int → Int → Nat) (untied : Nat → Nat → Array Rat)
     (n1 n2 : Nat) (T : List Nat) (twoU : Int) : Rat :=
   if twoU < 0 then 0
   else if twoU ≥ 2 * (n1 * n2 : Nat) then 1
@@ -196,18 +198,19 @@ def cdfWith (tied : List Nat → Int → Int → Nat) (untied : Nat → Nat → 
     let ui : Nat := (twoU / 2).toNat           -- int(math.Floor(U))
     let flip := decide (ui ≥ (n1 * n2 + 1) / 2)
     let ui := if flip then n1 * n2 - ui - 1 else ui
-    let p := (List.range (ui + 1)).foldl (fun acc u => acc + untied n1 n2 u) (0 : Rat)
+    let tab := untied n1 n2
+    let p := (List.range (ui + 1)).foldl (fun acc u => acc + tab.getD u 0) (0 : Rat)
     if flip then 1 - p else p
 
 /-- `UDist{n1,n2,T}.PMF(U)` with twoU = 2·U -/
-def pmfWith (tied : List Nat → Int → Int → Nat) (untied : Nat → Nat → Nat → Rat)
+def pmfWith (tied : List Nat → Int → Int → Nat) (untied : Nat → Nat → Array Rat)
     (n1 n2 : Nat) (T : List Nat) (twoU : Int) : Rat :=
   if twoU < 0 ∨ twoU ≥ 1 + 2 * (n1 * n2 : Nat) then 0
   else if hasTies T then
     (((((tied T n1 twoU : Nat) : Int) - ((tied T n1 (twoU - 1) : Nat) : Int) : Int)) : Rat)
       / ((choose (n1 + n2) n1 : Nat) : Rat)
   else
-    untied n1 n2 (twoU / 2).toNat
+    (untied n1 n2).getD (twoU / 2).toNat 0
 
 /-- evaluators used by the compiled driver: memo table and count table -/
 def cdf := cdfWith makeUmemo pUntied
